@@ -30,6 +30,8 @@ def quant(ip, kind, view, body_fn):
 
 def type_test(ip, st, v, tyname):
     """isinstance(v, <builtin type name>) as a Bool term"""
+    if type(v).__name__ == "Padded":
+        raise U("isinstance of an item of a zip_longest row")
     if tyname == "dict":
         if isinstance(v, Ref):
             cell = st.heap[v.cid]
@@ -89,11 +91,30 @@ def type_test(ip, st, v, tyname):
     raise U("isinstance(..., %s)" % tyname)
 
 
+def ext_instance(ip, t, mod, name):
+    import re
+    f = ip.reg.ufun("isinst_ext_%s_Val" % re.sub(r"[^A-Za-z0-9_]", "_", "%s.%s" % (mod, name)), ["Val"], "Bool")
+    return AND(NOT(T("(isD %s)" % t.s, "Bool")), T("(%s %s)" % (f, t.s), "Bool"))
+
+
 def isinstance_(ip, st, v, cls):
+    if type(v).__name__ == "Padded":
+        raise U("isinstance of an item of a zip_longest row")
     if isinstance(cls, Tup):
         return OR(*[isinstance_(ip, st, v, c) for c in cls.items])
     if isinstance(cls, Fun) and cls.kind == "builtin":
         return type_test(ip, st, v, cls.name)
+    if isinstance(cls, Fun) and cls.kind == "external":
+        # a class of a third-party library (jinja2.Template): for a context value an abstract predicate -- a dictionary
+        # is no instance of it, a scalar (an arbitrary python object) may be
+        t = None
+        if isinstance(v, Ref) and isinstance(st.heap[v.cid], ValCell):
+            t = ip.deref(st, v)
+        elif isinstance(v, Opaque) and v.sort == "Val":
+            t = v.t
+        if t is not None:
+            return ext_instance(ip, t, cls.mod, cls.name)
+        raise U("isinstance against the external class %s.%s" % (cls.mod, cls.name))
     if isinstance(cls, Fun) and cls.kind == "class":
         if isinstance(v, Ref) and isinstance(st.heap[v.cid], ObjCell):
             k = st.heap[v.cid].cls
@@ -107,12 +128,19 @@ def isinstance_(ip, st, v, cls):
                 seen.add(x)
                 cs = ip.contracts.classes.get(x)
                 if cs:
+                    if cs.alias_of == cls.name:
+                        return TRUE        # a ClassSpec that describes instances of this very class under another name
                     todo += cs.bases
             return FALSE
         if isinstance(v, Opaque) and v.sort in ("Obj", "V"):
             f = ip.reg.ufun("isinst_%s_%s" % (cls.name, v.sort), [v.sort], "Bool")
             return T("(%s %s)" % (f, v.t.s), "Bool")
         return FALSE
+    if isinstance(cls, Fun) and cls.kind == "external" and cls.mod == "numbers" and cls.name == "Number":
+        if isinstance(v, (Num, Bool)):
+            return TRUE
+        if isinstance(v, (Tup, View, Str, NoneV)) or (isinstance(v, Ref) and not isinstance(st.heap[v.cid], ObjCell)):
+            return FALSE
     raise U("isinstance against %r" % (cls,))
 
 
@@ -163,6 +191,8 @@ def has_attr(ip, st, v, name):
 
 
 def is_callable(ip, st, v):
+    if type(v).__name__ == "Padded":
+        raise U("callable() of an item of a zip_longest row")
     if isinstance(v, Fun):
         if v.kind == "elem-method":
             # "the element has this attribute and it is callable" (abstract predicate over element and attribute name)
@@ -308,7 +338,8 @@ def call_builtin(ip, st, name, pos, kws, node):
             for x in v.items:
                 r = ADD(r, ip.num(x))
             return [(st, Num(r))]
-        raise U("sum over symbolic sequence (use a spec function)")
+        from .histlib import sum_symbolic       # start + lsum(xs, len(xs)): recursive reference function
+        return [(st, sum_symbolic(ip, st, v, ip.num(pos[1]) if len(pos) > 1 else I(0)))]
     if name in ("list", "tuple"):
         if not pos:
             return [(st, Tup([]) if name == "tuple" else ip.new_cell(st, PyListCell([])))]
@@ -426,6 +457,9 @@ def call_method(ip, st, recv, name, pos, kws, node):
     reg = ip.reg
     if isinstance(recv, Ref):
         cell = st.heap[recv.cid]
+        if type(cell).__name__ == "KeyMapCell":
+            from .keymap import km_method
+            return km_method(ip, st, recv, name, pos, kws)
         if isinstance(cell, LstCell):
             return list_method(ip, st, recv, name, pos, kws)
         if isinstance(cell, PyListCell):
